@@ -164,6 +164,11 @@ func splitAxis(name, dflt string) (sub, abs string) {
 
 func absCode(name string) (evdev.EvCode, error) {
 	_, name = splitAxis(name, "")
+	if strings.HasPrefix(name, "x") { // a code without a symbolic name, written as in a configuration file
+		var v uint
+		_, err := fmt.Sscanf(name[1:], "%x", &v)
+		return evdev.EvCode(v), err
+	}
 	c, ok := evdev.ABSFromString[name]
 	if !ok {
 		return 0, fmt.Errorf("unknown abs name %q", name)
